@@ -27,7 +27,9 @@ deps = sorted(re.findall(r'^([A-Za-z0-9_-]+)\s*=', cargo[cargo.index("[dependenc
 if deps != ["file-ext", "url-build-parse", "url-search-params"]:
     sys.exit("scan_fs: dependency list changed: %s" % deps)
 
-def strip_comments(src): return re.sub(r'//[^\n]*', '', re.sub(r'/\*.*?\*/', '', src, flags=re.S))
+sys.path.insert(0, os.path.dirname(os.path.abspath(__file__)))
+from rustlex import clean
+def strip_comments(src): return clean(src)      # string-aware: a // inside "http://" is not a comment
 def functions(src):
     """yield (name, body) for every fn with a body, by brace matching"""
     for m in re.finditer(r'\bfn\s+(\w+)\s*(?:<[^>]*>)?\s*\(', src):
